@@ -33,6 +33,7 @@
 //! assert_eq!(ctx, srx);
 //! ```
 
+use subtle::ConstantTimeEq;
 use zeroize::Zeroize;
 
 use super::crypto_core::{crypto_scalarmult, crypto_scalarmult_base};
@@ -90,6 +91,16 @@ fn crypto_kx(
     server_pk: &PublicKey,
     mut shared_secret: [u8; CRYPTO_SCALARMULT_BYTES],
 ) -> Result<(), Error> {
+    // a low-order peer key yields an all-zero shared secret, which anyone can
+    // compute: refuse it, as libsodium does
+    if shared_secret
+        .ct_eq(&[0u8; CRYPTO_SCALARMULT_BYTES])
+        .unwrap_u8()
+        == 1
+    {
+        return Err(dryoc_error!("invalid public key (low order)"));
+    }
+
     let mut keys = [0u8; 2 * CRYPTO_KX_SESSIONKEYBYTES];
 
     let mut hasher = crypto_generichash_init(None, 2 * CRYPTO_KX_SESSIONKEYBYTES)?;
